@@ -96,6 +96,8 @@ def _analyse_sink(f, sink_expr, sink_node, hist_hint="p_msgs"):
     res = []
     for seq in paths:
         zero = False
+        nonzero = False        # V known > 0 since it last changed
+        unguarded = None       # a read at index V - 1 without V > 0 established
         target = False         # the entry at V is the one being cancelled (identified by an equality match), i.e. NOT valid
         status = "unknown"     # tag status of the entry at index V
         bound = None           # did of the variable holding the entry loaded at V
@@ -112,6 +114,7 @@ def _analyse_sink(f, sink_expr, sink_node, hist_hint="p_msgs"):
                     if n.op == "--" or (n.op == "++" and in_subscript):
                         # V moves to another entry; its status is unknown until tested
                         target = False
+                        nonzero = False
                         if in_subscript and not n.postfix:
                             bound, status, offset, zero = "pending", "unknown", 0, False
                         else:
@@ -149,6 +152,7 @@ def _analyse_sink(f, sink_expr, sink_node, hist_hint="p_msgs"):
                     zero = (truth is False)
                     if truth:
                         zero = False
+                        nonzero = True
                 # identity match of the loaded entry with the message being cancelled
                 if c.k == "BinaryOperator" and ((c.op == "!=" and truth is False) or (c.op == "==" and truth is True)) and bound not in (None, "pending"):
                     for side in c.children:
@@ -169,9 +173,20 @@ def _analyse_sink(f, sink_expr, sink_node, hist_hint="p_msgs"):
                         el = X.strip(el.children[0])
                     if el is not None and el.k == "ArraySubscriptExpr" and hist_hint in X.show(el.children[0]):
                         ix = X.strip(el.children[1])
+                        minus_one = False
                         if ix.k == "UnaryOperator" and ix.op in ("--", "++"):
                             ix = X.strip(ix.children[0])
-                        if ix.k == "DeclRefExpr" and ix.did == vd:
+                        elif ix.k == "BinaryOperator" and ix.op == "-" and X.const_int(ix.children[1]) == 1:
+                            ix = X.strip(ix.children[0])
+                            minus_one = True
+                        if ix.k == "DeclRefExpr" and ix.did == vd and minus_one:
+                            # entry at V - 1: V is one past it
+                            if not nonzero and unguarded is None:
+                                unguarded = cc
+                            mask = X.const_int(cc.children[1])
+                            bound, offset, target = "direct", 1, False
+                            status = ("sent" if truth else "past") if mask == 3 else ("sent" if truth else "unknown")
+                        elif ix.k == "DeclRefExpr" and ix.did == vd:
                             mask = X.const_int(cc.children[1])
                             bound, offset, target = "direct", 0, False
                             if mask == 3:
@@ -192,7 +207,9 @@ def _analyse_sink(f, sink_expr, sink_node, hist_hint="p_msgs"):
             res.append(("ok", "index known to be 0"))
             continue
         eff = plus + offset
-        if target:
+        if unguarded is not None:
+            res.append(("under", "computed by reading the history at index %s - 1 without %s > 0 being established: when no earlier processed entry is left (after a fossil collection) the index wraps around" % (v.name, v.name)))
+        elif target:
             res.append(("under", "%s the cancelled event itself: the messages that event sent precede it in the history and are not cancelled" % ("at" if eff == 0 else "past")))
         elif status == "past" and eff == 1:
             res.append(("ok", "one past an entry tested untagged"))
